@@ -25,7 +25,7 @@ from hypothesis import strategies as st
 
 from pbt.runner import Check
 from pbt.gens import netgen, documents
-from pbt.oracles.docdiff import doc_diff, obj_diff, Differ
+from pbt.oracles.docdiff import doc_diff, obj_diff, obj_diffs, Differ
 
 PROPERTY = 'C18'
 RULE = ('Grammar-based legacy documents (pbt/gens/documents.py) on top of netgen libraries/topologies: all element types '
@@ -34,9 +34,11 @@ RULE = ('Grammar-based legacy documents (pbt/gens/documents.py) on top of netgen
         'raman_coefficient / raman_efficiency, lumped losses, several SI / Span / Roadm entries, roadm-path-impairments, '
         'penalties, other_name on Edfa / Transceiver / mode, nulls and omitted optionals, N/M slots with nulls, '
         'synchronization groups, unordered keyed lists; shipped example files as seeds. Every decimal leaf is quantised '
-        'to the fraction digits of its YANG leaf, then some leaves are moved by k*10^-d (class a) or k*10^-(d+e) '
-        '(class b, excess digits). Non-trivial = the document uses at least one field/feature tracked in `features` '
-        '(i.e. beyond the plain shipped-example shape) or carries a moved (non-round) value; distinct = sha1 of the case.')
+        'to the fraction digits of its YANG leaf, then some or all leaves are moved by k*10^-d (class a) or k*10^-(d+e) '
+        '(class b, excess digits). Sub-check key-order: same documents with one keyed-list entry written with its key '
+        'member last, converted in a child process. Non-trivial = the document uses at least one tracked feature '
+        '(label <kind>:<feature>, i.e. beyond the plain shipped-example shape) or carries excess-digit values; seeds: '
+        'file with moved values; propagation: both forms designed and propagated. distinct = sha1 of the case.')
 ASSUMPTIONS = [
     'libyang (oopt-gnpy-libyang) with the modules shipped in gnpy/yang is the judge of YANG validity',
     'declared precision of a leaf = fraction-digits of its YANG leaf (own parser of the .yang files)',
@@ -61,11 +63,12 @@ def _num_sig(s):
 
 
 def _strict(kind, a, b):
-    """exact document equality (idempotence); returns (sig, detail) of the first difference"""
+    """exact document equality (idempotence); returns the list of (sig, detail), one per differing path"""
     if a == b:
-        return None
-    return Differ(kind, tolerant=False).diff(a, b) or ('', 'documents differ (no path found): '
-                                                       + json.dumps(a, sort_keys=True, default=str)[:200])
+        return []
+    d = Differ(kind, tolerant=False)
+    d.diff(a, b)
+    return d.found or [('', 'documents differ (no path found): ' + json.dumps(a, sort_keys=True, default=str)[:200])]
 
 
 _PROBE = """
@@ -85,8 +88,8 @@ except ly.Error as e:
 
 def probe_in_child(L):
     """Run legacy -> YANG -> legacy once in a child interpreter. The libyang binding can take the whole process down
-    (SIGSEGV) on some member orders of keyed-list entries; a pool worker dying would hang the run, so the tagged
-    'key-not-first' class is tried out of process first. Returns ('ok'|'invalid'|'crash', text)."""
+    (SIGSEGV) on some member orders of keyed-list entries; a worker dying would break the run, so the 'key-order'
+    sub-check tries its documents out of process first. Returns ('ok'|'invalid'|'crash', text)."""
     import subprocess
     import sys
     from pbt.runner import _gnpy_root
@@ -106,25 +109,13 @@ def probe_in_child(L):
     raise HarnessError(f'probe child failed rc={r.returncode}: {r.stderr[-600:]}')
 
 
-def conversions(ctx, kind, L, check_passthrough=True, feats=()):
+def conversions(ctx, kind, L, check_passthrough=True):
     """validity, idempotence, round trip, pass-through. Returns (Y, C) (C None when Y is not usable)."""
     from gnpy.tools.convert_legacy_yang import legacy_to_yang, yang_to_legacy
     import oopt_gnpy_libyang as ly
-    moved = [f.split(':', 1)[1] for f in feats if f.startswith('key-not-first:')]
-    if moved:
-        # tagged class: one entry of a keyed list written with its key member(s) last (JSON objects are unordered)
-        status, text = probe_in_child(L)
-        if status == 'crash':
-            ctx.violation(f'crash:{kind}:key-not-first:{moved[0]}', f'interpreter died in yang_to_legacy(legacy_to_yang(L)): {text}')
-            return None, None
-        if status == 'invalid' and 'is missing its key' in text:
-            ctx.violation(f'invalid-yang:{kind}:key-not-first:{moved[0]}', text)
-            return None, None
-        # otherwise the child survived and the member order was accepted: carry on in process
     Y = legacy_to_yang(copy.deepcopy(L))
     Y2 = legacy_to_yang(copy.deepcopy(Y))
-    r = _strict(kind, Y, Y2)
-    if r:
+    for r in _strict(kind, Y, Y2):
         ctx.violation(f'idempotence-l2y:{kind}:{r[0]}', r[1])
     try:
         # yang_to_legacy validates legacy_to_yang(Y) (== Y when idempotent) with libyang before converting
@@ -144,8 +135,7 @@ def conversions(ctx, kind, L, check_passthrough=True, feats=()):
                       f'yang_to_legacy(yang_to_legacy(Y)) rejected: {what} @ {msgs[0].where if msgs else ""}')
         C2 = None
     if C2 is not None:
-        r = _strict(kind, C, C2)
-        if r:
+        for r in _strict(kind, C, C2):
             ctx.violation(f'idempotence-y2l:{kind}:{r[0]}', r[1])
     if kind == 'edfa-config' and isinstance(C, dict) and list(C) == ['gnpy-edfa-config:edfa-config']:
         # yang_to_legacy keeps the module wrapper for this kind (the API conversion and its expected files rely on
@@ -153,8 +143,7 @@ def conversions(ctx, kind, L, check_passthrough=True, feats=()):
         C = C['gnpy-edfa-config:edfa-config']
         ctx.label('note:edfa-config-wrapper-kept')
     notes = set()
-    r = doc_diff(kind, L, C, tolerant=True, notes=notes)
-    if r:
+    for r in doc_diff(kind, L, C, tolerant=True, notes=notes):
         ctx.violation(f'roundtrip:{kind}:{r[0]}', r[1])
     for n in notes:
         ctx.label('note:' + n)
@@ -167,8 +156,7 @@ def conversions(ctx, kind, L, check_passthrough=True, feats=()):
             ctx.violation(f'legacy-passthrough:{kind}:rejected:{_norm_msg(what)}', f'{what}')
             P = None
         if P is not None:
-            r = doc_diff(kind, L, P, tolerant=False)
-            if r:
+            for r in doc_diff(kind, L, P, tolerant=False):
                 ctx.violation(f'legacy-passthrough:{kind}:{r[0]}', r[1])
     return Y, C
 
@@ -177,6 +165,8 @@ def _labels(ctx, case, kind):
     ctx.label(f'class:{case["cls"]}')
     for f in case.get('features', []):
         ctx.label(f'{kind}:{f}')
+    # non-trivial: uses a tracked feature (beyond the plain shipped-example shape) or carries excess-digit values
+    ctx.nontrivial(bool(case.get('features')) or case['cls'] == 'b')
 
 
 def load_eq(eq_json, extra=None):
@@ -247,10 +237,9 @@ def check_aliases(ctx, L, eqpt, form):
 
 def run_equipment(case, ctx):
     from gnpy.core.exceptions import EquipmentConfigError
-    L = documents.canonical(case['doc'], case.get('key_last'))
+    L = documents.canonical(case['doc'])
     _labels(ctx, case, 'equipment')
-    ctx.nontrivial(True)
-    Y, C = conversions(ctx, 'equipment', L, feats=case.get('features', ()))
+    Y, C = conversions(ctx, 'equipment', L)
     try:
         EA = load_eq(L)
     except EquipmentConfigError as e:
@@ -261,8 +250,7 @@ def run_equipment(case, ctx):
     if C is None or case['cls'] != 'a':
         return
     EC = load_eq(C)
-    d = obj_diff(EA, EC)
-    if d:
+    for d in obj_diffs(EA, EC):
         ctx.violation(f'semantics:equipment:{_num_sig(d.split(":")[0])}', d)
     check_aliases(ctx, L, EC, 'yang')
 
@@ -278,18 +266,19 @@ def _network(eq_json, topo):
 def compare_networks(ctx, na, nc):
     from gnpy.tools.json_io import network_to_json
     ja, jc = network_to_json(na), network_to_json(nc)
-    r = _strict('topology', ja, jc)
-    if r:
+    for r in _strict('topology', ja, jc):
         ctx.violation(f'semantics:topology:to_json:{r[0]}', r[1])
     A = {n.uid: n for n in na.nodes()}
     B = {n.uid: n for n in nc.nodes()}
     if set(A) != set(B):
         ctx.violation('semantics:topology:node-set', f'{sorted(set(A) ^ set(B))[:5]}')
         return
+    n_reported = 0
     for uid in A:
-        d = obj_diff(vars(A[uid]), vars(B[uid]))
-        if d:
+        for d in obj_diffs(vars(A[uid]), vars(B[uid]), limit=4):
             ctx.violation(f'semantics:topology:{type(A[uid]).__name__}.{_num_sig(d.split(":")[0])}', f'{uid}: {d}')
+            n_reported += 1
+        if n_reported >= 8:
             return
     ea = sorted((u.uid, v.uid, w.get('weight')) for u, v, w in na.edges(data=True))
     eb = sorted((u.uid, v.uid, w.get('weight')) for u, v, w in nc.edges(data=True))
@@ -298,13 +287,12 @@ def compare_networks(ctx, na, nc):
 
 
 def run_topology(case, ctx):
-    L = documents.canonical(case['doc'], case.get('key_last'))
+    L = documents.canonical(case['doc'])
     case = dict(case, eq=documents.canonical(case['eq']))
     _labels(ctx, case, 'topology')
     for el in L['elements']:
         ctx.label('element:' + el['type'])
-    ctx.nontrivial(True)
-    Y, C = conversions(ctx, 'topology', L, feats=case.get('features', ()))
+    Y, C = conversions(ctx, 'topology', L)
     _, na = _network(case['eq'], L)
     if C is None or case['cls'] != 'a':
         return
@@ -316,11 +304,10 @@ def run_topology(case, ctx):
 
 def run_services(case, ctx):
     from gnpy.tools.json_io import requests_from_json, disjunctions_from_json
-    L = documents.canonical(case['doc'], case.get('key_last'))
+    L = documents.canonical(case['doc'])
     case = dict(case, eq=documents.canonical(case['eq']))
     _labels(ctx, case, 'services')
-    ctx.nontrivial(True)
-    Y, C = conversions(ctx, 'services', L, feats=case.get('features', ()))
+    Y, C = conversions(ctx, 'services', L)
     eqa = load_eq(case['eq'])
     ra = requests_from_json(copy.deepcopy(L), eqa)
     da = disjunctions_from_json(copy.deepcopy(L))
@@ -329,11 +316,9 @@ def run_services(case, ctx):
     eqc = load_eq(case['eq'])
     rc = requests_from_json(copy.deepcopy(C), eqc)
     dc = disjunctions_from_json(copy.deepcopy(C))
-    d = obj_diff([vars(r) for r in ra], [vars(r) for r in rc])
-    if d:
+    for d in obj_diffs([vars(r) for r in ra], [vars(r) for r in rc]):
         ctx.violation(f'semantics:services:request.{_num_sig(d.split(":")[0])}', d)
-    d = obj_diff([vars(x) for x in da], [vars(x) for x in dc])
-    if d:
+    for d in obj_diffs([vars(x) for x in da], [vars(x) for x in dc]):
         ctx.violation(f'semantics:services:disjunction.{_num_sig(d.split(":")[0])}', d)
 
 
@@ -366,19 +351,17 @@ def semantics_small(ctx, kind, L, C):
     else:
         a = vars(load_eq(_ONE_AMP_EQ, {'cfg.json': L})['Edfa']['adv'])
         b = vars(load_eq(_ONE_AMP_EQ, {'cfg.json': C})['Edfa']['adv'])
-    d = obj_diff(a, b)
-    if d:
+    for d in obj_diffs(a, b):
         ctx.violation(f'semantics:{kind}:{_num_sig(d.split(":")[0])}', d)
 
 
 def run_small(case, ctx):
     kind = case['kind']
-    L = documents.canonical(case['doc'], case.get('key_last'))
+    L = documents.canonical(case['doc'])
     _labels(ctx, case, kind)
     ctx.label('kind:' + kind)
-    ctx.nontrivial(True)
     netgen.reset_sim_params()
-    Y, C = conversions(ctx, kind, L, feats=case.get('features', ()))
+    Y, C = conversions(ctx, kind, L)
     if C is None or case['cls'] != 'a':
         return
     semantics_small(ctx, kind, L, C)
@@ -417,8 +400,7 @@ def run_seed(case, ctx):
         return
     # unmodified shipped files: loaders must build equal objects from both forms
     if kind == 'equipment':
-        d = obj_diff(load_eq(L), load_eq(C))
-        if d:
+        for d in obj_diffs(load_eq(L), load_eq(C)):
             ctx.violation(f'semantics:equipment:{_num_sig(d.split(":")[0])}', d)
     elif kind in ('spectrum', 'sim-params', 'edfa-config'):
         semantics_small(ctx, kind, L, C)
@@ -498,6 +480,45 @@ def propagation_case(draw):
     return c
 
 
+# -------------------------------------------------------------------------------------------------- member order
+
+def run_key_order(case, ctx):
+    """A legacy document stays valid when the members of an object are written in another order. Every loader goes
+    through yang_to_legacy -> legacy_to_yang -> libyang (strict, ordered parsing), which wants the key leaves of a list
+    entry first; the converters re-order three lists (route objects, lumped losses, Raman pumps) only."""
+    kind = case['kind']
+    name = case['key_last']['list']
+    L = documents.canonical(case['doc'], case['key_last'])
+    ctx.label('kind:' + kind, 'list:' + name)
+    ctx.nontrivial(True)
+    status, text = probe_in_child(L)
+    ctx.label(f'outcome:{status}:{name}')
+    if status == 'crash':
+        ctx.violation(f'crash:{kind}:{name}', f'interpreter died in yang_to_legacy(legacy_to_yang(L)): {text}; '
+                                              f'entry {case["key_last"]["key"]} of list {name} has its key member(s) last')
+        return
+    if status == 'invalid':
+        if 'is missing its key' in text or 'Duplicate instance' in text:
+            ctx.violation(f'rejected:{kind}:{name}', f'{text}; entry {case["key_last"]["key"]} of list {name} has its '
+                                                     f'key member(s) last')
+        else:
+            ctx.violation(f'invalid-yang:{kind}:{_norm_msg(text)}', text)
+        return
+    # accepted out of process: same conversions in process, judged like any other document
+    conversions(ctx, kind, L, check_passthrough=False)
+
+
+FLOORS = {
+    'equipment:class:b': (0.10, 'equipment'), 'equipment:equipment:trx-alias': (0.20, 'equipment'),
+    'equipment:equipment:edfa-alias': (0.20, 'equipment'), 'equipment:equipment:si2': (0.15, 'equipment'),
+    'equipment:equipment:span2': (0.15, 'equipment'), 'equipment:equipment:raman_efficiency': (0.15, 'equipment'),
+    'topology:class:b': (0.10, 'topology'), 'topology:topology:per_degree_design_bands': (0.08, 'topology'),
+    'topology:topology:loss_coef-per-frequency': (0.10, 'topology'), 'topology:topology:lumped_losses': (0.10, 'topology'),
+    'topology:topology:RamanFiber': (0.10, 'topology'), 'topology:topology:per_degree_pch_out_db': (0.05, 'topology'),
+    'services:services:synchronization': (0.05, 'services'), 'services:services:slot:multi': (0.05, 'services'),
+    'propagation:propagated': (0.5, 'propagation'),
+}
+
 CHECKS = [
     Check('equipment', documents.equipment_doc(), run_equipment, quick=150, thorough=5000,
           doc='equipment library: conversions, loader equality, aliases'),
@@ -511,4 +532,6 @@ CHECKS = [
           doc='shipped example files, plain and with moved values'),
     Check('propagation', propagation_case(), run_propagation, quick=40, thorough=1200,
           doc='design + propagation from both forms give the same receiver figures'),
+    Check('key-order', documents.key_order_case(), run_key_order, quick=40, thorough=600,
+          doc='keyed-list entry written with its key member last: converted in a child process (crash / rejected / ok)'),
 ]
